@@ -288,10 +288,10 @@ static void *churnrs_worker(void *va) {
 }
 /* ------------------------------------------------------------------ E: descriptors that no create ever returned (0, -1, a
    large never-issued one) probed from other threads while instances are being created and destroyed: refused at every moment */
-static volatile int g_probe_stop = 0;
+static int g_probe_stop = 0;      /* accessed with __atomic builtins only: the harness must not contribute races of its own */
 static void *probe_worker(void *va) {
     churn_a *a = va; static const int never[] = { 0, -1, 0x7fff0000, -2147483647 };
-    while (!g_probe_stop) for (int q = 0; q < 4; q++) {
+    while (!__atomic_load_n(&g_probe_stop, __ATOMIC_ACQUIRE)) for (int q = 0; q < 4; q++) {
         if (liberasurecode_get_fragment_size(never[q], 64) >= 0) a->bad++;
         if (liberasurecode_get_minimum_encode_size(never[q]) >= 0) a->bad++;
         if (liberasurecode_decode_cleanup(never[q], NULL) == 0) a->bad++;
@@ -316,11 +316,11 @@ static void *probe_churner(void *va) {
 static void run_probe(void *va, FILE *out) {
     int *cfg = va; int T = cfg[0], iters = cfg[1]; pthread_t th[MAXT], pr[2]; churn_a a[MAXT], p[2]; int bad = 0;
     if (g_progress) snprintf(g_progress, 200, "probing never-issued descriptors while %d threads create and destroy instances", T);
-    g_probe_stop = 0;
+    __atomic_store_n(&g_probe_stop, 0, __ATOMIC_RELEASE);
     for (int q = 0; q < 2; q++) { p[q] = (churn_a){ q, 0, 0 }; pthread_create(&pr[q], NULL, probe_worker, &p[q]); }
     for (int t = 0; t < T; t++) { a[t] = (churn_a){ t, iters, 0 }; pthread_create(&th[t], NULL, probe_churner, &a[t]); }
     for (int t = 0; t < T; t++) { pthread_join(th[t], NULL); bad += a[t].bad; }
-    g_probe_stop = 1;
+    __atomic_store_n(&g_probe_stop, 1, __ATOMIC_RELEASE);
     for (int q = 0; q < 2; q++) { pthread_join(pr[q], NULL); bad += p[q].bad; }
     if (bad) fprintf(out, "DIFFERENT %d", bad); else fprintf(out, "ok");
 }
